@@ -20,8 +20,8 @@ CONSTANTS MaxTR, Fault, EmitCases
 
 Templates == {"T-R", "T R", "Township,Range", "Twp.,Rge.", "T.,R.", "bare", "lower"}
 HasWords(tm) == tm # "bare"
-TwpNums == {1, 7, 104, 154}
-RgeNums == {2, 12, 97, 100}
+TwpNums == {0, 1, 7, 104, 154}
+RgeNums == {0, 2, 12, 97, 100}
 Dirs(axis) == IF axis = "ns" THEN {"N", "S"} ELSE {"E", "W"}
 Forms == [tmpl : Templates, t : TwpNums, ns : {"N", "S", "-"}, r : RgeNums, ew : {"E", "W", "-"}]
 Readable(f) ==
